@@ -1136,3 +1136,17 @@ func specDirectWriteOK(from ast.Format, ctx ast.Context) bool {
 //@   opt stable github.com/open2b/scriggo/ast.Render github.com/open2b/scriggo/ast.Tree
 //@   panics allowed
 //@   callassert[C16] em.emitCallNode 1 render.Tree != nil && specDirectWriteOK(render.Tree.Format, ctx)
+
+// The variables of an imported template file are initialised once per FILE:
+// the emitter calls the file's init functions unless the file - named by the
+// rooted path of its tree, not by the path as written in the import, which may
+// be relative to different directories - has been initialised already, and
+// then records it as initialised.
+//@ clause (*emitter).emitNodes/case *ast.Import
+//@   props X00 C16
+//@   opt stable emitter github.com/open2b/scriggo/ast.Import github.com/open2b/scriggo/ast.Tree
+//@   opt track emitCallFunc emitImport
+//@   panics allowed
+//@   requires em != nil && node != nil && em.alreadyInitializedTemplatePkgs != nil
+//@   ensures[C16] old(em.isTemplate) && old(node.Tree) != nil && called("emitCallFunc") ==> !old(em.alreadyInitializedTemplatePkgs[node.Tree.Path]) && em.alreadyInitializedTemplatePkgs[old(node.Tree.Path)]
+//@   ensures[C16] old(em.isTemplate) && old(node.Tree) != nil && old(em.alreadyInitializedTemplatePkgs[node.Tree.Path]) ==> !called("emitCallFunc")
